@@ -43,10 +43,13 @@ def scripted(answer, run):
 
     def fake(prompt=""):
         run.prompts.append(str(prompt))
+        ans = answer
         if isinstance(answer, tuple):
             # (answer to the first question, answer to all later ones)
-            return answer[0] if len(run.prompts) == 1 else answer[1]
-        return answer
+            ans = answer[0] if len(run.prompts) == 1 else answer[1]
+        if cli.PROMPT_HOOK is not None:
+            cli.PROMPT_HOOK(str(prompt), ans)
+        return ans
 
     builtins.input = fake
     sys.stdout = io.StringIO()
@@ -319,7 +322,8 @@ def scenarios():
         with mpl.rc_context({"savefig.format": "pdf"}):
             _figs().export(str(t), confirm_overwrite=w)
     # the same with matplotlib's default format set to pdf (matplotlibrc):
-    # one PDF under the given name; the file asked about is the file written
+    # whether the PDF gets the name as given or with ".pdf" appended is evo's
+    # choice - the file asked about must be the file written (event monitor)
     add("writer:plot-noext-pdf", _writer(export_default_pdf), "plotsy",
         cost="plot", bystanders=("plotsy.pdf", "plotsy_first.pdf",
                                  "plotsy.png"))
@@ -433,12 +437,13 @@ def scenarios():
 ALWAYS_CONFIRMS = {"evo_config:generate", "evo_config:generate-tilde"}
 # scenarios in which evo may fail or write elsewhere (the path is unusual);
 # only "existing files stay untouched unless confirmed" is demanded
-LENIENT = {"evo_config:generate-tilde",
+LENIENT = {"evo_config:generate-tilde", "writer:plot-noext-pdf",
            "evo_ape:serialize_plot+save_results-same-path",
            "evo_rpe:serialize_plot+save_results-same-path"}
 # ... judged by the event monitor: every write onto a path that exists at
 # that moment needs a question answered 'y' since the last write to it
-MONITORED = {"evo_ape:serialize_plot+save_results-same-path",
+MONITORED = {"writer:plot-noext-pdf",
+             "evo_ape:serialize_plot+save_results-same-path",
              "evo_rpe:serialize_plot+save_results-same-path"}
 # evo_fig additionally asks whether to overwrite its *input* file
 EXTRA_PROMPT_TARGET = {"evo_fig:save_plot": "in.ser",
